@@ -20,7 +20,7 @@ func has(s *exec.State, h int) bool { _, ok := s.Pk[h]; return ok }
 // for an XR block of 32,762 chunks). No property bounds formatting time, so
 // such values are not formatted (DESIGN.md 3.4).
 func stringOf(s *exec.State, h, bufh int) {
-	if len(s.Buf[bufh]) <= 20000 {
+	if len(s.Buf[bufh]) <= 20000 && s.Weight(h) <= 20000 {
 		s.String(h)
 	}
 }
